@@ -5,6 +5,7 @@
   input of any size, and about `chol?` / `mle` at α = ℝ.
 -/
 import MellonProofs.ValidateLemmas
+import MellonProofs.ValidateLemmasK
 import MellonProofs.LinalgProofs
 
 namespace Mellon.C20
@@ -238,7 +239,7 @@ theorem integer_scalar_other_validators (f : IntForm) (i : Int) (o ai : Bool) (x
     subst hx
     have hfc : floatCatch (.npint f i) = ok (.fin q) := by
       simp only [floatCatch, pyFloat, hq]
-    have e1 : validateFloat (.npint f i) o
+    have e1 : validateFloatNan (.npint f i) o
         = (floatCatch (.npint f i)).bind fun x => if x.isNan then valueError else ok (.float x) := by
       cases f with
       | npScalar => rfl
@@ -248,7 +249,7 @@ theorem integer_scalar_other_validators (f : IntForm) (i : Int) (o ai : Bool) (x
             if x.le0 then valueError else if x.isNan then valueError
             else if x.isInf && !ai then valueError else ok (.float x) := by cases o <;> rfl
     refine ⟨?_, ?_, by cases o <;> rfl⟩
-    · rw [e1, hfc]; rfl
+    · unfold validateFloat; rw [e1, hfc]; rfl
     · rw [e2, hfc]
       by_cases hi : 0 < i
       · have h0 : ¬ q ≤ 0 := not_le.mpr (hpos hi)
@@ -287,43 +288,88 @@ theorem float_or_int_refusals (o : Bool) :
   · intro f i hi
     rw [(float_or_int_npint f i o).1, if_neg hi]
 
-/-- `validate_float` (mu, mu_dim, mu_dens). -/
-theorem validate_float_post {v r : PyVal} {o : Bool} (h : validateFloat v o = ok r) :
-    (r = .none ∧ v = .none ∧ o = true) ∨ cleanNumber r := by
+/-- `validate_float` (mu, mu_dim, mu_dens): an accepted value is `None` (optional) or a number that is not NaN
+    and — unless `allow_inf=True` was asked for — not infinite either. -/
+theorem validate_float_post {v r : PyVal} {o ai : Bool} (h : validateFloat v o ai = ok r) :
+    (r = .none ∧ v = .none ∧ o = true) ∨ (cleanNumber r ∧ (ai = false → finiteNumber r)) := by
   unfold validateFloat at h
-  split at h
-  · left; cases o <;> simp_all
-  · right
-    simp only at h
-    split at h
-    · rename_i hfi; exact nanCheck_post hfi h
-    · exact floatCheck_post h
+  obtain ⟨r0, h0, h1⟩ := bind_eq_ok.mp h
+  obtain ⟨hr, hfin⟩ := infCheck_ok h1
+  subst hr
+  rcases validateFloatNan_post h0 with hn | hc
+  · exact Or.inl hn
+  · refine Or.inr ⟨hc, ?_⟩
+    intro hai
+    cases r with
+    | float x => exact ⟨by simpa [cleanNumber] using hc, hfin hai x rfl⟩
+    | bool b => trivial
+    | int i => trivial
+    | _ => simp [cleanNumber] at hc
 
-theorem validate_float_refusals (o : Bool) :
-    validateFloat .none false = valueError ∧
-    (∀ x : XF, x.isNan = true → validateFloat (.float x) o = valueError) ∧
-    (∀ s, validateFloat (.str s none) o = valueError) ∧
-    (∀ s, validateFloat (.str s (some .nan)) o = valueError) ∧
-    (∀ xs, validateFloat (.list xs) o = valueError) ∧
-    validateFloat .obj o = valueError ∧
-    (∀ lib shape, validateFloat (.arr lib shape [.nan]) o = valueError) ∧
-    (∀ shape data, data.length ≠ 1 → validateFloat (.arr .jax shape data) o = valueError) := by
+/-- **Full strength** (hunt H3, A1): where a finite float is required (`allow_inf=False`, the default: mu, mu_dim,
+    mu_dens) an accepted float is a finite rational — neither NaN nor ±inf. -/
+theorem validate_float_finite {v : PyVal} {x : XF} {o : Bool}
+    (h : validateFloat v o false = ok (.float x)) : ∃ q : Rat, x = .fin q := by
+  rcases validate_float_post h with ⟨h1, _, _⟩ | ⟨_, hf⟩
+  · cases h1
+  · obtain ⟨h1, h2⟩ := hf rfl
+    exact fin_of_not_nan_inf h1 h2
+
+/-- `allow_inf=True` (only `derivatives.derivative`, for an evaluation point) is the validator without the
+    infinity test. -/
+theorem validate_float_allow_inf (v : PyVal) (o : Bool) : validateFloat v o true = validateFloatNan v o := by
+  unfold validateFloat
+  cases h : validateFloatNan v o <;> simp [Outcome.bind, infCheck_allow]
+
+theorem validate_float_refusals (o ai : Bool) :
+    validateFloat .none false ai = valueError ∧
+    (∀ x : XF, x.isNan = true → validateFloat (.float x) o ai = valueError) ∧
+    (∀ s, validateFloat (.str s none) o ai = valueError) ∧
+    (∀ s, validateFloat (.str s (some .nan)) o ai = valueError) ∧
+    (∀ xs, validateFloat (.list xs) o ai = valueError) ∧
+    validateFloat .obj o ai = valueError ∧
+    (∀ lib shape, validateFloat (.arr lib shape [.nan]) o ai = valueError) ∧
+    (∀ shape data, data.length ≠ 1 → validateFloat (.arr .jax shape data) o ai = valueError) := by
   refine ⟨rfl, ?_, ?_, ?_, ?_, ?_, ?_, ?_⟩
-  · intro x hx; simp [validateFloat, floatCatch, Outcome.bind, squeezeJax1, PyVal.isFloatOrInt, isnanScalar, hx]
+  · intro x hx; simp [validateFloat, validateFloatNan_float, hx, Outcome.bind]
   · intro s; rfl
   · intro s; rfl
   · intro xs; rfl
   · rfl
   · intro lib shape
     cases lib
-    · cases shape <;> simp [validateFloat, floatCatch, Outcome.bind, squeezeJax1, PyVal.isFloatOrInt, pyFloat, XF.isNan]
-    · simp [validateFloat, floatCatch, Outcome.bind, squeezeJax1, PyVal.isFloatOrInt, pyFloat, XF.isNan]
+    · cases shape <;> simp [validateFloat, validateFloatNan, floatCatch, Outcome.bind, squeezeJax1, PyVal.isFloatOrInt, pyFloat, XF.isNan]
+    · simp [validateFloat, validateFloatNan, floatCatch, Outcome.bind, squeezeJax1, PyVal.isFloatOrInt, pyFloat, XF.isNan]
   · intro shape data hd
     have hs : squeezeJax1 (.arr .jax shape data) = .arr .jax shape data := by
       unfold squeezeJax1; split <;> simp_all
     have : pyFloat (.arr .jax shape data) = typeError := by
       unfold pyFloat; split <;> simp_all
-    simp [validateFloat, floatCatch, Outcome.bind, hs, PyVal.isFloatOrInt, this]
+    simp [validateFloat, validateFloatNan, floatCatch, Outcome.bind, hs, PyVal.isFloatOrInt, this]
+
+/-- **±inf is refused where a finite float is required** (hunt H3, A1: `FunctionEstimator(mu=inf)` was accepted
+    and every fitted value was NaN): the floats `+inf` / `-inf`, the strings `'inf'` / `'-inf'` (whatever text
+    CPython's `float()` turns into an infinity) and 0-d / one-element arrays holding an infinity. -/
+theorem validate_float_refuses_inf (o : Bool) :
+    (∀ x : XF, x.isInf = true → validateFloat (.float x) o false = valueError) ∧
+    (∀ s (x : XF), x.isInf = true → validateFloat (.str s (some x)) o false = valueError) ∧
+    (∀ lib (x : XF), x.isInf = true → validateFloat (.arr lib [] [x]) o false = valueError) ∧
+    (∀ x : XF, x.isInf = true → validateFloat (.float x) o true = ok (.float x)) := by
+  refine ⟨?_, ?_, ?_, ?_⟩
+  · intro x hx
+    cases x <;> simp_all [XF.isInf, validateFloat, validateFloatNan_float, XF.isNan, Outcome.bind, infCheck]
+  · intro s x hx
+    cases x <;> simp_all [XF.isInf, validateFloat, validateFloatNan, squeezeJax1, PyVal.isFloatOrInt, floatCatch,
+      pyFloat, XF.isNan, Outcome.bind, infCheck]
+  · intro lib x hx
+    cases lib <;> cases x <;> simp_all [XF.isInf, validateFloat, validateFloatNan, squeezeJax1, PyVal.isFloatOrInt,
+      floatCatch, pyFloat, XF.isNan, Outcome.bind, infCheck]
+  · intro x hx
+    cases x <;> simp_all [XF.isInf, validateFloat, validateFloatNan_float, XF.isNan, Outcome.bind, infCheck]
+
+example : validateFloat (.float .pinf) true = valueError ∧ validateFloat (.str "-inf" (some .ninf)) false = valueError ∧
+    validateFloat (.float (.fin 3)) false = ok (.float (.fin 3)) ∧ validateFloat (.float .ninf) false true = ok (.float .ninf) :=
+  ⟨rfl, rfl, rfl, rfl⟩
 
 /-- `validate_positive_int` (n_landmarks, n_iter, k): accepted ⇒ the value itself, a bool or a
     non-negative int (zero is accepted: the test in the code is `value < 0`). -/
@@ -409,11 +455,15 @@ theorem string_refusals (choices : List String) :
     | str s n => exact absurd rfl (hv s n)
     | _ => rfl
 
-/-- `validate_float_or_iterable_numerical(…, positive=True)` (the `d` argument): an accepted scalar or
-    array has no negative entry (NaN is let through: `nan < 0` is false). -/
-theorem foin_post {v r : PyVal} {o : Bool} (h : validateFloatOrIterable v o true = ok r) :
-    (r = .none ∧ v = .none ∧ o = true) ∨ (∃ x, r = .float x ∧ x.lt0 = false) ∨
-      ∃ shape data, r = .arr .jax shape data ∧ ∀ x ∈ data, x.lt0 = false := by
+/-- `validate_float_or_iterable_numerical` (`d` of the density estimators: `positive=True`; `sigma` of the
+    FunctionEstimator: `positive=True, allow_inf=True`): an accepted scalar or array has no NaN entry
+    (hunt H3, A2: `nan < 0` is false, so NaN used to pass), no infinite entry unless `allow_inf`, and no
+    negative entry when `positive`. -/
+theorem foin_post {v r : PyVal} {o p ai : Bool} (h : validateFloatOrIterable v o p ai = ok r) :
+    (r = .none ∧ v = .none ∧ o = true) ∨
+    (∃ x, r = .float x ∧ x.isNan = false ∧ (ai = false → x.isInf = false) ∧ (p = true → x.lt0 = false)) ∨
+      ∃ shape data, r = .arr .jax shape data ∧
+        ∀ x ∈ data, x.isNan = false ∧ (ai = false → x.isInf = false) ∧ (p = true → x.lt0 = false) := by
   unfold validateFloatOrIterable at h
   split at h
   · left; simp_all
@@ -421,44 +471,126 @@ theorem foin_post {v r : PyVal} {o : Bool} (h : validateFloatOrIterable v o true
     split at h
     · left
       obtain ⟨x, _, hx⟩ := bind_eq_ok.mp h
-      by_cases hl : x.lt0 = true
-      · simp [hl] at hx
-      · simp only [hl, Bool.true_and, if_false, Bool.false_eq_true] at hx
-        injection hx with hx
-        exact ⟨x, hx.symm, by simpa using hl⟩
+      by_cases h1 : x.isNan = true
+      · simp [h1] at hx
+      · rw [if_neg h1] at hx
+        by_cases h2 : (x.isInf && !ai) = true
+        · simp [h2] at hx
+        · rw [if_neg h2] at hx
+          by_cases h3 : (p && x.lt0) = true
+          · simp [h3] at hx
+          · rw [if_neg h3] at hx
+            injection hx with hx
+            refine ⟨x, hx.symm, by simpa using h1, ?_, ?_⟩
+            · intro hai; subst hai; simpa using h2
+            · intro hp; subst hp; simpa using h3
     · right
       split at h
       · cases h
       · split at h
         · obtain ⟨a, _, ha⟩ := bind_eq_ok.mp h
-          by_cases hl : a.2.any XF.lt0 = true
-          · simp [hl] at ha
-          · simp only [hl, Bool.true_and, if_false, Bool.false_eq_true] at ha
-            injection ha with ha
-            refine ⟨a.1, a.2, ha.symm, ?_⟩
-            intro x hx
-            have : ¬ (a.2.any XF.lt0 = true) := hl
-            rw [List.any_eq_true] at this
-            cases hh : x.lt0
-            · rfl
-            · exact absurd ⟨x, hx, hh⟩ this
+          by_cases h1 : a.2.any XF.isNan = true
+          · simp [h1] at ha
+          · rw [if_neg h1] at ha
+            by_cases h2 : (!ai && a.2.any XF.isInf) = true
+            · simp [h2] at ha
+            · rw [if_neg h2] at ha
+              by_cases h3 : (p && a.2.any XF.lt0) = true
+              · simp [h3] at ha
+              · rw [if_neg h3] at ha
+                injection ha with ha
+                refine ⟨a.1, a.2, ha.symm, ?_⟩
+                intro x hx
+                refine ⟨?_, ?_, ?_⟩
+                · cases hh : x.isNan
+                  · rfl
+                  · exact absurd (List.any_eq_true.mpr ⟨x, hx, hh⟩) h1
+                · intro hai; subst hai
+                  cases hh : x.isInf
+                  · rfl
+                  · exact absurd (by simpa using List.any_eq_true.mpr ⟨x, hx, hh⟩) h2
+                · intro hp; subst hp
+                  cases hh : x.lt0
+                  · rfl
+                  · exact absurd (by simpa using List.any_eq_true.mpr ⟨x, hx, hh⟩) h3
         · cases h
 
-theorem foin_refusals (o p : Bool) :
-    validateFloatOrIterable .none false p = typeError ∧
-    (∀ s n, validateFloatOrIterable (.str s n) o p = typeError) ∧
-    validateFloatOrIterable .obj o p = typeError ∧
-    (∀ x : XF, x.lt0 = true → validateFloatOrIterable (.float x) o true = valueError) ∧
+/-- **Full strength for `d`** (`positive=True`, `allow_inf=False`): every accepted entry is a finite rational
+    that is not negative. -/
+theorem foin_d_finite {v r : PyVal} {o : Bool} (h : validateFloatOrIterable v o true false = ok r) :
+    (r = .none ∧ v = .none ∧ o = true) ∨ (∃ q : Rat, r = .float (.fin q) ∧ 0 ≤ q) ∨
+      ∃ shape data, r = .arr .jax shape data ∧ ∀ x ∈ data, ∃ q : Rat, x = .fin q ∧ 0 ≤ q := by
+  have key : ∀ x : XF, x.isNan = false → x.isInf = false → x.lt0 = false → ∃ q : Rat, x = .fin q ∧ 0 ≤ q := by
+    intro x h1 h2 h3
+    obtain ⟨q, rfl⟩ := fin_of_not_nan_inf h1 h2
+    exact ⟨q, rfl, by simpa [XF.lt0] using h3⟩
+  rcases foin_post h with hn | ⟨x, hr, h1, h2, h3⟩ | ⟨shape, data, hr, hall⟩
+  · exact Or.inl hn
+  · obtain ⟨q, rfl, hq⟩ := key x h1 (h2 rfl) (h3 rfl)
+    exact Or.inr (Or.inl ⟨q, hr, hq⟩)
+  · refine Or.inr (Or.inr ⟨shape, data, hr, ?_⟩)
+    intro x hx
+    obtain ⟨h1, h2, h3⟩ := hall x hx
+    exact key x h1 (h2 rfl) (h3 rfl)
+
+theorem foin_refusals (o p ai : Bool) :
+    validateFloatOrIterable .none false p ai = typeError ∧
+    (∀ s n, validateFloatOrIterable (.str s n) o p ai = typeError) ∧
+    validateFloatOrIterable .obj o p ai = typeError ∧
+    (∀ x : XF, x.lt0 = true → validateFloatOrIterable (.float x) o true ai = valueError) ∧
     (∀ lib shape data, (∃ x ∈ data, XF.lt0 x = true) →
-        validateFloatOrIterable (.arr lib shape data) o true = valueError) := by
+        validateFloatOrIterable (.arr lib shape data) o true ai = valueError) := by
   refine ⟨by cases p <;> rfl, ?_, by cases o <;> rfl, ?_, ?_⟩
   · intro s n; cases o <;> rfl
   · intro x hx
-    cases o <;> simp [validateFloatOrIterable, PyVal.isFloatOrInt, pyFloat, catchOverflow, Outcome.bind, hx]
+    cases x <;> cases o <;> cases ai <;>
+      simp_all [validateFloatOrIterable, PyVal.isFloatOrInt, pyFloat, catchOverflow, Outcome.bind, XF.lt0, XF.isNan, XF.isInf]
   · intro lib shape data hx
     have : data.any XF.lt0 = true := List.any_eq_true.mpr hx
+    have e : validateFloatOrIterable (.arr lib shape data) o true ai
+        = if data.any XF.isNan then valueError
+          else if !ai && data.any XF.isInf then valueError
+          else if true && data.any XF.lt0 then valueError else ok (arrVal (shape, data)) := by
+      cases o <;> simp [validateFloatOrIterable, PyVal.isFloatOrInt, PyVal.isIterable, toArr, PyVal.hasNone, toArrCore,
+        catchOverflow, Outcome.bind]
+    rw [e, this]
+    repeat (first | rfl | split)
+
+/-- **NaN is refused** (hunt H3, A2) — the scalar `nan`, a 0-d / one-element NaN array, any array (per-cell `d` or
+    `sigma`) with a NaN entry — whatever `optional`, `positive`, `allow_inf`; and an **infinite** value (`d=inf`
+    gave all-NaN densities as well) is refused unless `allow_inf=True`. -/
+theorem foin_refuses_nan_inf (o p ai : Bool) :
+    (∀ x : XF, x.isNan = true → validateFloatOrIterable (.float x) o p ai = valueError) ∧
+    (∀ lib shape data, (∃ x ∈ data, XF.isNan x = true) →
+        validateFloatOrIterable (.arr lib shape data) o p ai = valueError) ∧
+    (∀ x : XF, x.isInf = true → validateFloatOrIterable (.float x) o p false = valueError) ∧
+    (∀ lib shape data, (∃ x ∈ data, XF.isInf x = true) →
+        validateFloatOrIterable (.arr lib shape data) o p false = valueError) := by
+  have earr : ∀ lib shape data (ai : Bool), validateFloatOrIterable (.arr lib shape data) o p ai
+      = if data.any XF.isNan then valueError
+        else if !ai && data.any XF.isInf then valueError
+        else if p && data.any XF.lt0 then valueError else ok (arrVal (shape, data)) := by
+    intro lib shape data ai
     cases o <;> simp [validateFloatOrIterable, PyVal.isFloatOrInt, PyVal.isIterable, toArr, PyVal.hasNone, toArrCore,
-      catchOverflow, Outcome.bind, this]
+      catchOverflow, Outcome.bind]
+  refine ⟨?_, ?_, ?_, ?_⟩
+  · intro x hx
+    cases o <;> simp [validateFloatOrIterable, PyVal.isFloatOrInt, pyFloat, catchOverflow, Outcome.bind, hx]
+  · intro lib shape data hx
+    rw [earr, List.any_eq_true.mpr hx]; rfl
+  · intro x hx
+    cases x <;> cases o <;>
+      simp_all [validateFloatOrIterable, PyVal.isFloatOrInt, pyFloat, catchOverflow, Outcome.bind, XF.isNan, XF.isInf]
+  · intro lib shape data hx
+    rw [earr, List.any_eq_true.mpr hx]
+    repeat (first | rfl | split)
+
+example : validateFloatOrIterable (.float .nan) true true = valueError ∧
+    validateFloatOrIterable (.arr .np [] [.nan]) true true = valueError ∧
+    validateFloatOrIterable (.arr .np [3] [.fin 2, .nan, .fin 2]) true true = valueError ∧
+    validateFloatOrIterable (.float .pinf) true true = valueError ∧
+    validateFloatOrIterable (.arr .np [2] [.pinf, .fin 1]) false true true = ok (.arr .jax [2] [.pinf, .fin 1]) ∧
+    validateFloatOrIterable (.float (.fin 2)) true true = ok (.float (.fin 2)) := ⟨rfl, rfl, rfl, rfl, rfl, rfl⟩
 
 /-- `validate_array`: accepted ⇒ `None` (optional) or a jax array whose number of dimensions is one of
     the requested ones. -/
@@ -647,11 +779,13 @@ example : ∃ r d : ℝ, 0 < r ∧ 0 < d := ⟨1, 2, by norm_num, by norm_num⟩
     no other exception class escapes. -/
 theorem validators_no_internal (v : PyVal) (o p ai : Bool) (choices : List String) (nd : Option (List Nat)) :
     (validateFloatOrInt v o).isInternal = false ∧ (validatePositiveFloat v o ai).isInternal = false ∧
-    (validateFloat v o).isInternal = false ∧ (validatePositiveInt v o).isInternal = false ∧
+    (validateFloat v o ai).isInternal = false ∧ (validatePositiveInt v o).isInternal = false ∧
     (validateBool v o).isInternal = false ∧ (validateString v choices).isInternal = false ∧
-    (validateFloatOrIterable v o p).isInternal = false ∧ (validateArray v o nd).isInternal = false ∧
-    (validate1d v).isInternal = false := by
-  refine ⟨?_, ?_, ?_, ?_, ?_, ?_, ?_, ?_, ?_⟩
+    (validateFloatOrIterable v o p ai).isInternal = false ∧ (validateArray v o nd).isInternal = false ∧
+    (validate1d v).isInternal = false ∧ (validateK v).isInternal = false := by
+  have hpi : (validatePositiveInt v o).isInternal = false ∧ (validatePositiveInt v false).isInternal = false := by
+    constructor <;> (unfold validatePositiveInt; split <;> first | rfl | (split <;> rfl))
+  refine ⟨?_, ?_, ?_, hpi.1, ?_, ?_, ?_, ?_, ?_, ?_⟩
   · unfold validateFloatOrInt
     split
     · rfl
@@ -671,14 +805,7 @@ theorem validators_no_internal (v : PyVal) (o p ai : Bool) (choices : List Strin
         · rfl
         · split <;> rfl
   · unfold validateFloat
-    split
-    · split <;> rfl
-    · simp only
-      split
-      · rename_i hfi; exact nanCheck_noInternal hfi
-      · exact floatCheck_noInternal _
-  · unfold validatePositiveInt
-    split <;> first | rfl | (split <;> rfl)
+    exact bind_isInternal (validateFloatNan_noInternal v o) (fun r _ => infCheck_noInternal ai r)
   · unfold validateBool
     split <;> first | rfl | (split <;> rfl)
   · unfold validateString
@@ -690,12 +817,12 @@ theorem validators_no_internal (v : PyVal) (o p ai : Bool) (choices : List Strin
     · rfl
     · split
       · refine bind_isInternal (catchOverflow_noInternal _) ?_
-        intro x _; split <;> rfl
+        intro x _; repeat (first | rfl | split)
       · split
         · rfl
         · split
           · refine bind_isInternal (catchOverflow_noInternal _) ?_
-            intro a _; split <;> rfl
+            intro a _; repeat (first | rfl | split)
           · rfl
   · unfold validateArray
     split
@@ -715,6 +842,10 @@ theorem validators_no_internal (v : PyVal) (o p ai : Bool) (choices : List Strin
     refine bind_isInternal (catchOverflow_noInternal _) ?_
     intro a _
     split <;> rfl
+  · unfold validateK
+    refine bind_isInternal hpi.2 ?_
+    intro r _
+    split <;> first | rfl | (split <;> rfl)
 
 /-- The former counter-example witnesses (ints outside int64 / beyond the double range raised
     OverflowError before the repair) are now refused with ValueError. -/
@@ -738,7 +869,7 @@ theorem int64_overflow_refused (i : Int) (h : ¬ (-(2 ^ 63 : Int) ≤ i ∧ i < 
     rw [if_neg h]
   constructor
   · cases o <;> simp [validateFloatOrInt, PyVal.isFloatOrInt, h1, Outcome.bind]
-  · simp [validateFloat, squeezeJax1, PyVal.isFloatOrInt, h1, Outcome.bind]
+  · simp [validateFloat, validateFloatNan, squeezeJax1, PyVal.isFloatOrInt, h1, Outcome.bind]
 
 /-! ### option strings and the constructor -/
 
@@ -866,24 +997,27 @@ theorem ctorNN_post {v r : PyVal} (h : ctorNN v = ok r) :
   · cases h
 
 /-- What an accepted constructor call guarantees about the stored attributes: jitter and
-    init_learn_rate are FINITE positive floats, ls_factor (and ls when given) positive floats (possibly `+inf`); rank and mu carry no NaN; the flags
+    init_learn_rate are FINITE positive floats, ls_factor (and ls when given) positive floats (possibly `+inf`); rank carries no NaN,
+    mu neither NaN nor ±inf; `d` (when given) consists of finite non-negative numbers; the flags
     are genuine bools; optimizer and d_method are known option strings; gp_type is None or a
     GaussianProcessType; n_landmarks / n_iter are non-negative ints; stored nn_distances are all finite and
-    positive; `d` has no negative entry. -/
+    positive. -/
 theorem ctor_post {a c : CtorArgs} (h : densityCtor a = ok c) :
     (∃ x, c.jitter = .float x ∧ x.finPos = true) ∧
     (∃ x, c.lsFactor = .float x ∧ x.pos = true) ∧
     (∃ x, c.initLearnRate = .float x ∧ x.finPos = true) ∧
     (c.ls = .none ∨ ∃ x, c.ls = .float x ∧ x.pos = true) ∧
-    (c.rank = .none ∨ cleanNumber c.rank) ∧ (c.mu = .none ∨ cleanNumber c.mu) ∧
+    (c.rank = .none ∨ cleanNumber c.rank) ∧ (c.mu = .none ∨ finiteNumber c.mu) ∧
+    (c.d = .none ∨ (∃ q : Rat, c.d = .float (.fin q) ∧ 0 ≤ q) ∨
+      ∃ shape data, c.d = .arr .jax shape data ∧ ∀ x ∈ data, ∃ q : Rat, x = .fin q ∧ 0 ≤ q) ∧
     (∃ b, c.predictorWithUncertainty = .bool b) ∧ (∃ b, c.jit = .bool b) ∧
     (c.checkRank = .none ∨ ∃ b, c.checkRank = .bool b) ∧
     (∃ s n, c.optimizer = .str s n ∧ s ∈ optimizerChoices) ∧
     (∃ s n, c.dMethod = .str s n ∧ s ∈ dMethodChoices) ∧
     (c.gpType = .none ∨ ∃ g, c.gpType = .enum g) ∧
     (c.nnDistances = .none ∨ ∃ lib shape data, c.nnDistances = .arr lib shape data ∧ ∀ x ∈ data, x.finPos = true) := by
-  obtain ⟨_, h2, h3, _, h5, h6, h7, h8, h9, _, _, _, _, h14, _, h16, h17, h18, h19, h20⟩ := ctor_ok h
-  refine ⟨?_, ?_, ?_, ?_, ?_, ?_, ?_, ?_, ?_, ?_, ?_, ?_, ?_⟩
+  obtain ⟨_, h2, h3, _, h5, h6, h7, h8, h9, _, _, h12, _, h14, _, h16, h17, h18, h19, h20⟩ := ctor_ok h
+  refine ⟨?_, ?_, ?_, ?_, ?_, ?_, ?_, ?_, ?_, ?_, ?_, ?_, ?_, ?_⟩
   · rcases positive_float_post h3 with ⟨_, _, ho⟩ | ⟨x, hr, _, _, hf⟩
     · cases ho
     · exact ⟨x, hr, hf rfl⟩
@@ -899,9 +1033,13 @@ theorem ctor_post {a c : CtorArgs} (h : densityCtor a = ok c) :
   · rcases float_or_int_post h2 with ⟨hr, _, _⟩ | hx
     · exact Or.inl hr
     · exact Or.inr hx
-  · rcases validate_float_post h7 with ⟨hr, _, _⟩ | hx
+  · rcases validate_float_post h7 with ⟨hr, _, _⟩ | ⟨_, hx⟩
     · exact Or.inl hr
-    · exact Or.inr hx
+    · exact Or.inr (hx rfl)
+  · rcases foin_d_finite h12 with ⟨hr, _, _⟩ | hx | hx
+    · exact Or.inl hr
+    · exact Or.inr (Or.inl hx)
+    · exact Or.inr (Or.inr hx)
   · obtain ⟨hr, hv⟩ := bool_post h17
     rcases hv with ⟨_, ho⟩ | ⟨b, hb⟩
     · cases ho
@@ -961,7 +1099,10 @@ theorem ctor_refuses (a : CtorArgs) :
     ((∃ x, a.initLearnRate = .float x ∧ x.finPos = false) → (densityCtor a).isOk = false) ∧
     ((∀ s n, a.gpType ≠ .str s n) → (∀ t, a.gpType ≠ .enum t) → a.gpType ≠ .none → (densityCtor a).isOk = false) ∧
     (a.rank = .float .nan → (densityCtor a).isOk = false) ∧
-    (a.mu = .float .nan → (densityCtor a).isOk = false) ∧
+    ((∃ x, a.mu = .float x ∧ (x.isNan = true ∨ x.isInf = true)) → (densityCtor a).isOk = false) ∧
+    ((∃ x, a.d = .float x ∧ (x.isNan = true ∨ x.isInf = true)) → (densityCtor a).isOk = false) ∧
+    ((∃ lib shape data, a.d = .arr lib shape data ∧ ∃ x ∈ data, x.isNan = true ∨ x.isInf = true) →
+        (densityCtor a).isOk = false) ∧
     ((∃ lib shape data, a.nnDistances = .arr lib shape data ∧ ∀ x ∈ data, x.finPos = false) →
         (densityCtor a).isOk = false) := by
   have key : ∀ {P : Prop}, (∀ c, densityCtor a = ok c → P) → ¬ P → (densityCtor a).isOk = false := by
@@ -969,7 +1110,7 @@ theorem ctor_refuses (a : CtorArgs) :
     cases hc : densityCtor a with
     | ok c => exact absurd (hP c hc) hn
     | _ => rfl
-  refine ⟨?_, ?_, ?_, ?_, ?_, ?_, ?_, ?_, ?_, ?_, ?_, ?_, ?_⟩
+  refine ⟨?_, ?_, ?_, ?_, ?_, ?_, ?_, ?_, ?_, ?_, ?_, ?_, ?_, ?_, ?_⟩
   · intro hs
     refine key (P := ∃ r, validateString a.optimizer optimizerChoices = ok r)
       (fun c hc => ⟨_, (ctor_ok hc).2.2.2.2.2.2.2.2.2.2.2.2.2.1⟩) ?_
@@ -1035,16 +1176,139 @@ theorem ctor_refuses (a : CtorArgs) :
     refine key (P := ∃ r, validateFloatOrInt a.rank true = ok r) (fun c hc => ⟨_, (ctor_ok hc).2.1⟩) ?_
     rintro ⟨r, h⟩
     rw [hr, (float_or_int_refusals true).2.1 .nan rfl] at h; cases h
-  · intro hm
+  · rintro ⟨x, hm, hx⟩
     refine key (P := ∃ r, validateFloat a.mu true = ok r) (fun c hc => ⟨_, (ctor_ok hc).2.2.2.2.2.2.1⟩) ?_
     rintro ⟨r, h⟩
-    rw [hm, (validate_float_refusals true).2.1 .nan rfl] at h; cases h
+    rw [hm] at h
+    rcases hx with hx | hx
+    · rw [(validate_float_refusals true false).2.1 x hx] at h; cases h
+    · rw [(validate_float_refuses_inf true).1 x hx] at h; cases h
+  · rintro ⟨x, hd, hx⟩
+    refine key (P := ∃ r, validateFloatOrIterable a.d true true = ok r)
+      (fun c hc => ⟨_, (ctor_ok hc).2.2.2.2.2.2.2.2.2.2.2.1⟩) ?_
+    rintro ⟨r, h⟩
+    rw [hd] at h
+    rcases hx with hx | hx
+    · rw [(foin_refuses_nan_inf true true false).1 x hx] at h; cases h
+    · rw [(foin_refuses_nan_inf true true false).2.2.1 x hx] at h; cases h
+  · rintro ⟨lib, shape, data, hd, x, hxm, hx⟩
+    refine key (P := ∃ r, validateFloatOrIterable a.d true true = ok r)
+      (fun c hc => ⟨_, (ctor_ok hc).2.2.2.2.2.2.2.2.2.2.2.1⟩) ?_
+    rintro ⟨r, h⟩
+    rw [hd] at h
+    rcases hx with hx | hx
+    · rw [(foin_refuses_nan_inf true true false).2.1 lib shape data ⟨x, hxm, hx⟩] at h; cases h
+    · rw [(foin_refuses_nan_inf true true false).2.2.2 lib shape data ⟨x, hxm, hx⟩] at h; cases h
   · rintro ⟨lib, shape, data, hnn, hbad⟩
     refine key (P := ∃ r, ctorNN a.nnDistances = ok r) (fun c hc => ⟨_, (ctor_ok hc).2.2.2.2.2.1⟩) ?_
     rintro ⟨r, h⟩
     rw [hnn] at h
     have : validateNN (some data) true = valueError := (validateNN_refused_iff data true).mpr hbad
     simp [ctorNN, validateArray, PyVal.isIterable, toArr, PyVal.hasNone, toArrCore, catchOverflow, Outcome.bind, arrVal, this] at h
+
+/-! ### repairs after hunt H3: `k >= 1`, the normalisation target, the k-NN distance matrix -/
+
+/-- `DimensionalityEstimator(k=…)` (hunt H3, B3: `k=0` passed `validate_positive_int` and `fit` raised IndexError):
+    accepted ⇔ an int `>= 1` (or `True`, which is the int 1); the value is stored unchanged. -/
+theorem k_post {v r : PyVal} (h : validateK v = ok r) :
+    r = v ∧ ((∃ i : Int, v = .int i ∧ 1 ≤ i) ∨ v = .bool true) := by
+  unfold validateK at h
+  obtain ⟨r0, h0, h1⟩ := bind_eq_ok.mp h
+  obtain ⟨hr, hv⟩ := positive_int_post h0
+  subst hr
+  rcases hv with ⟨_, ho⟩ | ⟨b, hb⟩ | ⟨i, hi, _⟩
+  · cases ho
+  · subst hb
+    cases b
+    · simp at h1
+    · simp only [if_true] at h1
+      injection h1 with h1
+      exact ⟨h1.symm, Or.inr rfl⟩
+  · subst hi
+    simp only at h1
+    by_cases hi : i < 1
+    · simp [hi] at h1
+    · rw [if_neg hi] at h1
+      injection h1 with h1
+      exact ⟨h1.symm, Or.inl ⟨i, rfl, by omega⟩⟩
+
+theorem k_refusals :
+    (∀ i : Int, i < 1 → validateK (.int i) = valueError) ∧ validateK (.bool false) = valueError ∧
+    validateK .none = valueError ∧ (∀ x, validateK (.float x) = valueError) ∧
+    (∀ f i, validateK (.npint f i) = valueError) ∧ (∀ s n, validateK (.str s n) = valueError) := by
+  refine ⟨?_, rfl, rfl, fun _ => rfl, fun _ _ => rfl, fun _ _ => rfl⟩
+  intro i hi
+  by_cases h0 : i < 0
+  · simp [validateK, validatePositiveInt, h0, Outcome.bind]
+  · simp [validateK, validatePositiveInt, h0, hi, Outcome.bind]
+
+example : validateK (.int 0) = valueError ∧ validateK (.int 1) = ok (.int 1) ∧ validateK (.int 10) = ok (.int 10) :=
+  ⟨rfl, rfl, rfl⟩
+
+/-- `validate_normalize_per_time_point` (hunt H3, B3: the only flag that was never validated —
+    `np.bool_(True)` crashed `fit` with IndexError): accepted ⇒ the stored target is `None`, a genuine Python
+    bool, a dict or a sized container — never a NumPy boolean or another scalar; a NumPy / JAX boolean scalar is
+    stored as the Python bool of the same truth value; every other scalar and every str is a TypeError; nothing else
+    can happen. -/
+theorem normalize_post {v r : NormVal} (h : validateNormalize v = ok r) :
+    (r = .none ∨ (∃ b, r = .bool b) ∨ r = .dict ∨ ∃ n, r = .sized n) ∧
+    (∀ b, v = .npbool b → r = .bool b) ∧ ((∀ b, v ≠ .npbool b) → r = v) := by
+  cases v <;> simp_all [validateNormalize]
+  all_goals (subst h; simp)
+
+theorem normalize_refusals :
+    validateNormalize .scalar = typeError ∧ validateNormalize .str = typeError ∧
+    (∀ v, (validateNormalize v).isInternal = false) ∧
+    (∀ v, validateNormalize v = typeError ∨ ∃ r, validateNormalize v = ok r) := by
+  refine ⟨rfl, rfl, ?_, ?_⟩
+  · intro v; cases v <;> rfl
+  · intro v; cases v <;> simp [validateNormalize]
+
+example : validateNormalize (.npbool true) = ok (.bool true) ∧ validateNormalize (.sized 2) = ok (.sized 2) := ⟨rfl, rfl⟩
+
+/-- The k-NN distance matrix of the `DimensionalityEstimator` (hunt H3, A3: it was never sanitised) goes through the
+    same function as the nearest-neighbour distances, applied to the flattened matrix: `sanitiseDistances` IS
+    `validateNN` on `rows.flatten`.  So (corollary of `nn_sanitise`) an accepted matrix keeps its size, every
+    entry — in particular the first column, which becomes `nn_distances` — is finite and positive, valid entries are
+    unchanged and every invalid one is the smallest valid entry of the whole matrix; and (corollary of
+    `nn_all_invalid_refused`) it is refused exactly when no entry of any row is valid. -/
+theorem distances_sanitise (rows : List (List XF)) :
+    (∀ ys, sanitiseDistances rows = ok ys →
+      validateNN (some rows.flatten) false = ok (some ys) ∧ ys.length = rows.flatten.length ∧
+      (∀ y ∈ ys, y.finPos = true) ∧
+      ∃ m, m ∈ rows.flatten ∧ m.finPos = true ∧ (∀ v ∈ rows.flatten, v.finPos = true → v.lt m = false) ∧
+        ∀ i (hi : i < rows.flatten.length) (hj : i < ys.length),
+          ((rows.flatten)[i].finPos = true → ys[i] = (rows.flatten)[i]) ∧
+          ((rows.flatten)[i].finPos = false → ys[i] = m)) ∧
+    (sanitiseDistances rows = valueError ↔ ∀ row ∈ rows, ∀ x ∈ row, x.finPos = false) ∧
+    (sanitiseDistances rows).isInternal = false := by
+  have hcases := nn_total rows.flatten false
+  refine ⟨?_, ?_, ?_⟩
+  · intro ys h
+    rcases hcases with hv | ⟨zs, hz⟩
+    · simp [sanitiseDistances, hv, Outcome.bind] at h
+    · have : zs = ys := by simpa [sanitiseDistances, hz, Outcome.bind] using h
+      subst this
+      exact ⟨hz, nn_sanitise hz⟩
+  · have e : sanitiseDistances rows = valueError ↔ validateNN (some rows.flatten) false = valueError := by
+      rcases hcases with hv | ⟨zs, hz⟩
+      · simp [sanitiseDistances, hv, Outcome.bind]
+      · simp [sanitiseDistances, hz, Outcome.bind]
+    rw [e, nn_all_invalid_refused]
+    constructor
+    · intro h row hrow x hx
+      exact h x (List.mem_flatten.mpr ⟨row, hrow, hx⟩)
+    · intro h x hx
+      obtain ⟨row, hrow, hxr⟩ := List.mem_flatten.mp hx
+      exact h row hrow x hxr
+  · rcases hcases with hv | ⟨zs, hz⟩
+    · simp [sanitiseDistances, hv, Outcome.bind]
+    · simp [sanitiseDistances, hz, Outcome.bind]
+
+-- one duplicated cell: the zero distance of the pair is replaced by the smallest valid entry of the matrix
+example : sanitiseDistances [[.fin 0, .fin 2], [.fin 0, .fin 3], [.fin 1, .fin 2]]
+    = ok [.fin 1, .fin 2, .fin 1, .fin 3, .fin 1, .fin 2] := by decide +kernel
+example : sanitiseDistances [[.fin 0, .nan], [.pinf, .fin (-1)]] = valueError := by decide +kernel
 
 example : (densityCtor {}).isOk = true := by decide +kernel
 example : (densityCtor { optimizer := .str "sgd" none }).isOk = false := by decide +kernel
